@@ -19,6 +19,7 @@ func init() {
 		ruleG4(c, "C08.G4")
 		ruleG5(c, "C08.G5")
 		ruleA2(c, "C08.G6")
+		ruleS3(c, "C08.G7")
 	}
 }
 
